@@ -24,7 +24,8 @@ RULE = (
     "variables, every reported per-realization value is the value returned for the row with that label, inactive => weight "
     "0 (and on the gradient-only call weight 0 => inactive); whole-run differentials: garbage {0, 1e6, -7} in inactive "
     "entries must not change any reported function/gradient/weight/flag; a memoizing evaluator's returned objects are "
-    "byte-identical before/after every call; delivered results are read-only, share no memory with evaluator arrays and "
+    "byte-identical before/after every call; an evaluator handing out read-only views of buffers it refills on the next "
+    "call must not change any delivered result; delivered results are read-only, share no memory with evaluator arrays and "
     "earlier results are unchanged by later calls. Every sequence is non-trivial."
 )
 ASSUMPTIONS = [
@@ -75,7 +76,7 @@ def value_fn(x: np.ndarray, r: int) -> list[float]:
     return [100.0 * f + 10.0 * r + base + 0.5 for f in range(3)]
 
 
-def run_sequence(case: dict[str, Any], *, garbage: float | None, memoize: bool) -> dict[str, Any]:
+def run_sequence(case: dict[str, Any], *, garbage: float | None, memoize: bool, pooled: bool = False) -> dict[str, Any]:
     from ropt.ensemble_evaluator import EnsembleEvaluator
     from ropt.exceptions import OptimizationAborted
 
@@ -93,7 +94,7 @@ def run_sequence(case: dict[str, Any], *, garbage: float | None, memoize: bool) 
             return [1]  # NaN in an objective column of a perturbed row
         return None
 
-    evaluator = TableEvaluator(value_fn, 2, 1, garbage=garbage, memoize=memoize, fail=fail)
+    evaluator = TableEvaluator(value_fn, 2, 1, garbage=garbage, memoize=memoize, fail=fail, pooled=pooled)
     ens = EnsembleEvaluator(config, transforms, evaluator, manager)
     V = case["V"]
     out: dict[str, Any] = {"config": config, "transforms": transforms, "evaluator": evaluator, "steps": [], "error": None}
@@ -291,6 +292,22 @@ def judge(case: dict[str, Any]) -> Judgement:
             break
     if memo["error"] != base["error"] or summarize(memo) != reference:
         j.fail("memoizing-evaluator-changes-results", sequence=case["sequence"], transforms=case["transforms"])
+    # ---- pooled evaluator: read-only views of buffers that are refilled on every call
+    pooled = run_sequence(case, garbage=None, memoize=False, pooled=True)
+    j.transitions += len(case["sequence"])
+    if pooled["error"] != base["error"] or summarize(pooled) != reference:
+        j.fail("results-alias-evaluator-buffers:summary-changed", sequence=case["sequence"])
+    else:
+        pool_arrays = list(pooled["evaluator"]._pool.values())
+        base_items = [a for step in base["steps"] for res in step["results"] for a in all_arrays(res)]
+        pool_items = [a for step in pooled["steps"] for res in step["results"] for a in all_arrays(res)]
+        for (name, a), (_, b) in zip(base_items, pool_items):
+            if any(np.shares_memory(b, buf) for buf in pool_arrays):
+                j.fail(f"result-array-aliases-evaluator-buffer:{name}", sequence=case["sequence"])
+                break
+            if bytes_of(a) != bytes_of(b):
+                j.fail(f"delivered-result-overwritten-by-later-evaluator-call:{name}", sequence=case["sequence"])
+                break
     j.outcome = f"{''.join(op for op, _ in case['sequence'])}/filter={case['filter']}/w={case['weights']}/t={case['transforms']}/fail={case.get('fail')}/err={base['error']}"
     return j
 
